@@ -256,7 +256,7 @@ def run(tier="quick"):
                             "descriptor reader used by recv")
     for rid, txt in (("F1", "no overwrite/discard of a maybe-open descriptor without close"),
                      ("F2", "descriptor field reset after close before returning"), ("F3", "done closes an open descriptor"),
-                     ("F4", "send accounts for short writes"), ("F5", "I/O results are not tested through unsigned variables"),
+                     ("F4", "send accounts for short writes"), ("F6", "descriptor validity is tested as fd >= 0 / fd < 0 everywhere"), ("F5", "I/O results are not tested through unsigned variables"),
                      ("R1", "reader cursor re-derived after realloc"), ("R2", "reader advances only by positive counts")):
         chk.rule(rid, txt)
     prog = facts.extract(only=["socket.c", "str.c"])
@@ -279,6 +279,32 @@ def run(tier="quick"):
                 nsign += 1
     chk.ob("F5", "socket.c", "sign-tests", not any(o.rule == "F5" and not o.ok for o in chk.obls), loc="src/socket.c",
            proof="%d sign tests, all on signed operands" % nsign, detail="see the individual reports")
+    # F6 one notion of "holds an open descriptor" everywhere: fd >= 0 (the state anchor; 0 is a valid descriptor when stdin is
+    # closed).  A test that treats descriptor 0 as "none" (fd > 0, fd <= 0, plain truthiness) disagrees with its siblings: the
+    # object opened on descriptor 0 can be used but is never closed / reset
+    nfd = 0
+    for f in u.functions.values():
+        if f.body is None:
+            continue
+        for n in walk(f.body):
+            if n.get("k") == "bin" and n.get("op") in ("<", ">", "<=", ">=", "==", "!="):
+                a, b = n["ch"][0], n["ch"][1]
+                op = n["op"]
+                if fd_path(b) is not None and X.const_val(a) is not None:
+                    a, b = b, a
+                    op = {"<": ">", ">": "<", "<=": ">=", ">=": "<=", "==": "==", "!=": "!="}[op]
+                if fd_path(a) is None or X.const_val(b) is None:
+                    continue
+                k_ = X.const_val(b)
+                nfd += 1
+                # accepted partitions: {fd < 0 | fd >= 0}, {fd <= -1 | fd > -1}, {fd == -1 | fd != -1}
+                ok = (k_ == 0 and op in ("<", ">=")) or (k_ == -1 and op in ("<=", ">", "==", "!="))
+                chk.ob("F6", f.name, "fd-validity-test:" + canon(f, n)[:40], ok, loc=f.loc(n),
+                       detail="%s tests the descriptor with `%s`, which puts descriptor 0 on the `no descriptor` side (every other site uses "
+                              "fd >= 0 / fd < 0): a socket that was given descriptor 0 is usable but %s refuses to treat it as open" % (
+                                  f.name, X.render(n)[:40], f.name),
+                       proof="partitions descriptors into < 0 and >= 0")
+    chk.count("descriptor_validity_tests", nfd, floor=4)
     for f in classinfo.functions_in_slot(prog, "done"):
         if f.unit.name == "socket.c":
             check_done(chk, prog, f, closer_fns)
